@@ -875,6 +875,45 @@ enum CandidateKind {
     NonClobbered(Candidate),
 }
 
+/// Is there a path from `from_inst` to `to_inst` that does not pass through `to_inst` before?
+/// I.e., can `from_inst` execute before an execution of `to_inst`?
+fn reaches(context: &Context, from_inst: &Value, to_inst: &Value) -> bool {
+    let to_block = to_inst.get_instruction(context).unwrap().parent;
+    let from_block = from_inst.get_instruction(context).unwrap().parent;
+
+    // Scan backwards from `to_inst`, looking for `from_inst`.
+    if to_block
+        .instruction_iter(context)
+        .take_while(|i| i != to_inst)
+        .any(|i| i == *from_inst)
+    {
+        return true;
+    }
+    let mut worklist: Vec<Block> = to_block.pred_iter(context).copied().collect();
+    let mut visited = FxHashSet::default();
+    while let Some(block) = worklist.pop() {
+        if !visited.insert(block) {
+            continue;
+        }
+        if block == to_block {
+            // Arrived back via a loop: only the instructions after `to_inst` are on this path.
+            if block
+                .instruction_iter(context)
+                .skip_while(|i| i != to_inst)
+                .any(|i| i == *from_inst)
+            {
+                return true;
+            }
+            continue;
+        }
+        if block == from_block {
+            return true;
+        }
+        worklist.extend(block.pred_iter(context).copied());
+    }
+    false
+}
+
 /// Starting backwards from `end_inst`, till we reach `start_inst` or the entry block,
 /// is `scrutiny_ptr` (or an alias of it) stored to (i.e., clobbered)?
 /// Also checks that there is no overlap (common symbols) between
@@ -1209,7 +1248,19 @@ fn copy_prop_reverse(
             })
             .unwrap_or(true);
 
-        if source_uses_not_clobbered && destination_uses_not_clobbered {
+        // This memcpy is itself a use of the source. A store to the destination that reaches
+        // the memcpy may sit between a definition of the source and the memcpy. Once the source
+        // is replaced by the destination, that store would overwrite the definition.
+        let destination_not_stored_before = !stores_map.get(&dst_sym).is_some_and(|stores| {
+            stores
+                .iter()
+                .any(|store| *store != inst && reaches(context, store, &inst))
+        });
+
+        if source_uses_not_clobbered
+            && destination_uses_not_clobbered
+            && destination_not_stored_before
+        {
             candidates.push((inst, dst_sym, src_sym));
         }
     }
